@@ -3,6 +3,7 @@ from vlib.defs import Item, Variant, Field, EM, ser, tos, msg, det, doc, aci, DI
 from vlib.run import Corpus
 from vlib import structs as T
 from vlib import gen as G
+from vlib import strings as S
 
 ID = "C14"
 # look-alikes of prelude names (vlib/defs.py HOSTILE) this check's derives are immune to on the unchanged tree
@@ -125,7 +126,26 @@ def build_corpus(tier, rng):
         for j, (i, _, tag) in enumerate(T.RR.sample_values(it)):
             if tag != "default":
                 c.add_q(k, "msg", [j, i], note=tag)
+        c.add_q(k, "struct", ["EnumMessage"], note="structure")
     return c
+
+
+def crate_configs(tier):
+    return [{"name": "c14"}, {"name": "c14probe", "kind": "genprobe"}]
+
+
+def query_in_config(cfg, kind, args):
+    return (kind == "struct") == (cfg.get("kind") == "genprobe")
+
+
+probe_command = S.struct_probe_command
+
+
+def extra_coverage(corpus, tier):
+    d = S.struct_coverage()
+    d["structural_tie"]["what"] += ("; EnumMessage: the four getters as tables variant -> literal (message / detailed message / documentation after concat!) and "
+                                    "variant -> [spellings] (the static array of get_serializations), with their wildcards")
+    return d
 
 
 def render_def(k, it, meta, cfg):
@@ -133,4 +153,6 @@ def render_def(k, it, meta, cfg):
 
 
 def compare(corpus, k, kind, args, note, iobs, mobs, cfg):
+    if kind == "struct":
+        return S.compare_struct(corpus, k, iobs, mobs)
     return iobs == mobs, True, None
